@@ -406,6 +406,11 @@ func (w *joeWorld) generate() {
 		s := &joeSub{id: i, idLpos: -1}
 		s.sub = &simSub{ID: i}
 		s.topics = genTopics(ch, "sub")
+		if ch.Chance(1, 16, "subscription without topics") {
+			// handed to Joe directly (the Server never does this): no topic, so nothing matches it
+			s.topics = [][]string{nil, {}}[ch.Intn(2, "nil or empty topics")]
+			w.o.probe("subscription without topics")
+		}
 		base, cancel := context.WithCancel(context.Background())
 		if ch.Chance(1, 5, "subscriber context ends with DeadlineExceeded") {
 			dc := &simDeadlineCtx{Context: context.Background(), done: make(chan struct{})}
@@ -1251,9 +1256,22 @@ func (w *joeWorld) checkDeliveries() {
 				buffered = stored < w.capacity
 			}
 			if w.ttl > 0 && L[s.idLpos].at+w.ttl <= s.acceptAt {
-				buffered = false // the presented event had expired when the subscription was accepted
-				startKnown = false
-				w.o.probe("presented ID of an expired event")
+				// The presented event had expired when the subscription was accepted. Only a Put can
+				// collect it (Joe never calls GC): if no Put was made since its expiry, the replayer still
+				// holds it, it is "the ID of a buffered event", and the later unexpired events are due.
+				// Otherwise it may or may not have been collected and the start is unknown.
+				expiry := L[s.idLpos].at + w.ttl
+				for i := s.idLpos + 1; i < s.acceptLpos && i < len(L); i++ {
+					if L[i].at >= expiry {
+						buffered = false
+						startKnown = false
+					}
+				}
+				if startKnown {
+					w.o.probe("presented ID of an expired event that cannot have been collected yet")
+				} else {
+					w.o.probe("presented ID of an expired event")
+				}
 			}
 			switch {
 			case !startKnown:
